@@ -55,7 +55,12 @@ extern int mpt_parse_node(MPT_STRUCT(node) *root, MPT_STRUCT(parser_context) *pa
 	
 	/* create new nodes */
 	if (!(root->children)) {
-		root->children = conf.children;
+		root->children = curr = conf.children;
+		/* new top level nodes belong to target (not to local root) */
+		while (curr) {
+			curr->parent = root;
+			curr = curr->next;
+		}
 	}
 	/* add to existing */
 	else if (conf.children) {
